@@ -44,7 +44,52 @@ type DocEmb struct {
 	EmbS string `dials:"emb_s"`
 }
 
+// A chain of nested structs, 10 levels deep, with tagged leaves at the bottom.
+type DL1 struct {
+	Next DL2 `dials:"next"`
+}
+
+type DL2 struct {
+	Next DL3 `dials:"next"`
+}
+
+type DL3 struct {
+	Next DL4 `dials:"next"`
+}
+
+type DL4 struct {
+	Next DL5 `dials:"next"`
+}
+
+type DL5 struct {
+	Next DL6 `dials:"next"`
+}
+
+type DL6 struct {
+	Next DL7 `dials:"next"`
+}
+
+type DL7 struct {
+	Next DL8 `dials:"next"`
+}
+
+type DL8 struct {
+	Next DL9 `dials:"next"`
+}
+
+type DL9 struct {
+	Next DL10 `dials:"next"`
+}
+
+type DL10 struct {
+	Label string        `dials:"leaf_label"`
+	Wait  time.Duration `dials:"deep_wait"`
+}
+
+const deepLevels = 10
+
 type CfgDoc struct {
+	Deep DL1 `dials:"deep"`
 	DocEmb
 	Name     string                   `dials:"name"`
 	Count    int                      `dials:"count"`
@@ -70,34 +115,36 @@ type CfgDoc struct {
 
 // DocVal: which leaves a document sets, and to what.
 type DocVal struct {
-	Name      *string          `json:"name,omitempty"`
-	Count     *int             `json:"count,omitempty"`
-	Ratio     *float64         `json:"ratio,omitempty"`
-	On        *bool            `json:"on,omitempty"`
-	WaitNS    *int64           `json:"wait_ns,omitempty"`
-	WaitAsInt bool             `json:"wait_as_int,omitempty"` // JSON and Cue also accept integer nanoseconds
-	WaitEsc   bool             `json:"wait_esc,omitempty"`    // JSON: the duration string is written with \\u escapes (an ASCII-only writer)
-	When      *string          `json:"when,omitempty"`
-	Tags      []string         `json:"tags,omitempty"`
-	Nums      []int            `json:"nums,omitempty"`
-	Limits    map[string]int   `json:"limits,omitempty"`
-	Set       []string         `json:"set,omitempty"`
-	InHost    *string          `json:"in_host,omitempty"`
-	InPort    *int             `json:"in_port,omitempty"`
-	PInHost   *string          `json:"p_in_host,omitempty"`
-	PInPort   *int             `json:"p_in_port,omitempty"`
-	PInEmpty  bool             `json:"p_in_empty,omitempty"` // the p_in section is present but sets nothing: a pointer to the zero struct, not nil
-	IP        *string          `json:"ip,omitempty"`
-	Peers     []PeerVal        `json:"peers,omitempty"`
-	Alt       *string          `json:"alt,omitempty"`
-	WaitsNS   []int64          `json:"waits_ns"`             // nil: key absent; empty: key present with an empty list
-	TimeoutNS map[string]int64 `json:"timeouts_ns"`          // likewise
-	EmptyTags bool             `json:"empty_tags,omitempty"` // tags: [] (present, empty)
-	EmptyNums bool             `json:"empty_nums,omitempty"`
-	EmbN      *int             `json:"emb_n,omitempty"`
-	EmbS      *string          `json:"emb_s,omitempty"`
-	Whens     []string         `json:"whens,omitempty"`
-	PWaitsNS  []int64          `json:"p_waits_ns,omitempty"`
+	Name       *string          `json:"name,omitempty"`
+	Count      *int             `json:"count,omitempty"`
+	Ratio      *float64         `json:"ratio,omitempty"`
+	On         *bool            `json:"on,omitempty"`
+	WaitNS     *int64           `json:"wait_ns,omitempty"`
+	WaitAsInt  bool             `json:"wait_as_int,omitempty"` // JSON and Cue also accept integer nanoseconds
+	WaitEsc    bool             `json:"wait_esc,omitempty"`    // JSON: the duration string is written with \\u escapes (an ASCII-only writer)
+	When       *string          `json:"when,omitempty"`
+	Tags       []string         `json:"tags,omitempty"`
+	Nums       []int            `json:"nums,omitempty"`
+	Limits     map[string]int   `json:"limits,omitempty"`
+	Set        []string         `json:"set,omitempty"`
+	InHost     *string          `json:"in_host,omitempty"`
+	InPort     *int             `json:"in_port,omitempty"`
+	PInHost    *string          `json:"p_in_host,omitempty"`
+	PInPort    *int             `json:"p_in_port,omitempty"`
+	PInEmpty   bool             `json:"p_in_empty,omitempty"` // the p_in section is present but sets nothing: a pointer to the zero struct, not nil
+	IP         *string          `json:"ip,omitempty"`
+	Peers      []PeerVal        `json:"peers,omitempty"`
+	Alt        *string          `json:"alt,omitempty"`
+	WaitsNS    []int64          `json:"waits_ns"`             // nil: key absent; empty: key present with an empty list
+	TimeoutNS  map[string]int64 `json:"timeouts_ns"`          // likewise
+	EmptyTags  bool             `json:"empty_tags,omitempty"` // tags: [] (present, empty)
+	EmptyNums  bool             `json:"empty_nums,omitempty"`
+	EmbN       *int             `json:"emb_n,omitempty"`
+	EmbS       *string          `json:"emb_s,omitempty"`
+	Whens      []string         `json:"whens,omitempty"`
+	PWaitsNS   []int64          `json:"p_waits_ns,omitempty"`
+	DeepLabel  *string          `json:"deep_label,omitempty"`
+	DeepWaitNS *int64           `json:"deep_wait_ns,omitempty"`
 }
 
 type PeerVal struct {
@@ -224,6 +271,12 @@ func (g *gen) docVal(p int) DocVal {
 		for i, k := 0, g.in(1, 2); i < k; i++ {
 			v.PWaitsNS = append(v.PWaitsNS, int64(n+i)*int64(time.Second)+int64(i)*int64(time.Millisecond))
 		}
+	}
+	if g.pct(p / 3) {
+		v.DeepLabel = sp(fmt.Sprintf("deep%d", n))
+	}
+	if g.pct(p / 3) {
+		v.DeepWaitNS = i64p(int64(n) * 250 * int64(time.Millisecond))
 	}
 	if g.pct(p / 2) {
 		v.EmbN = ip(n*5 + 2)
@@ -363,6 +416,12 @@ func (v *DocVal) expected(def *DocVal) *CfgDoc {
 				w = append(w, time.Duration(x))
 			}
 			c.PWaits = &w
+		}
+		if l.DeepLabel != nil {
+			c.Deep.Next.Next.Next.Next.Next.Next.Next.Next.Next.Label = *l.DeepLabel
+		}
+		if l.DeepWaitNS != nil {
+			c.Deep.Next.Next.Next.Next.Next.Next.Next.Next.Next.Wait = time.Duration(*l.DeepWaitNS)
 		}
 		if l.EmbN != nil {
 			c.EmbN = *l.EmbN
@@ -573,6 +632,13 @@ func (v *DocVal) renderDoc(format string) string {
 	if v.EmbS != nil {
 		emb = append(emb, kv{"emb_s", strconv.Quote(*v.EmbS)})
 	}
+	var deep []kv
+	if v.DeepLabel != nil {
+		deep = append(deep, kv{"leaf_label", strconv.Quote(*v.DeepLabel)})
+	}
+	if v.DeepWaitNS != nil {
+		deep = append(deep, kv{"deep_wait", strconv.Quote(time.Duration(*v.DeepWaitNS).String())})
+	}
 	embFlat := format == "json" || format == "cue" || format == "yaml-flat"
 	format = baseFormat(format)
 	top, limits, in, pin := v.fields(format)
@@ -616,6 +682,13 @@ func (v *DocVal) renderDoc(format string) string {
 			}
 			all = append(all, kv{"peers", "[" + strings.Join(items, ", ") + "]"})
 		}
+		if len(deep) > 0 {
+			d := obj(deep, ", ", "{", "}", ": ", true)
+			for i := 1; i < deepLevels; i++ {
+				d = `{"next": ` + d + `}`
+			}
+			all = append(all, kv{"deep", d})
+		}
 		b.WriteString(obj(all, ",\n ", "{\n ", "\n}\n", ": ", true))
 	case "yaml", "cue":
 		for _, e := range top {
@@ -643,6 +716,13 @@ func (v *DocVal) renderDoc(format string) string {
 		if len(emb) > 0 {
 			fmt.Fprintf(&b, "docemb: %s\n", obj(emb, ", ", "{", "}", ": ", false))
 		}
+		if len(deep) > 0 {
+			d := obj(deep, ", ", "{", "}", ": ", false)
+			for i := 1; i < deepLevels; i++ {
+				d = "{next: " + d + "}"
+			}
+			fmt.Fprintf(&b, "deep: %s\n", d)
+		}
 	case "toml":
 		for _, e := range top {
 			fmt.Fprintf(&b, "%s = %s\n", e.k, e.v)
@@ -668,6 +748,12 @@ func (v *DocVal) renderDoc(format string) string {
 		if len(pin) > 0 || v.PInEmpty {
 			b.WriteString("[p_in]\n")
 			for _, e := range pin {
+				fmt.Fprintf(&b, "%s = %s\n", e.k, e.v)
+			}
+		}
+		if len(deep) > 0 {
+			b.WriteString("[deep" + strings.Repeat(".next", deepLevels-1) + "]\n")
+			for _, e := range deep {
 				fmt.Fprintf(&b, "%s = %s\n", e.k, e.v)
 			}
 		}
@@ -1031,7 +1117,7 @@ func (r *streamRun) checkUnset(format string, val reflect.Value, v *DocVal, doc 
 		"Name": v.Name == nil, "Count": v.Count == nil, "Ratio": v.Ratio == nil, "On": v.On == nil, "Wait": v.WaitNS == nil,
 		"When": v.When == nil, "Tags": v.Tags == nil, "Nums": v.Nums == nil, "Limits": v.Limits == nil, "Set": v.Set == nil,
 		"In": v.InHost == nil && v.InPort == nil, "PIn": v.PInHost == nil && v.PInPort == nil && !v.PInEmpty, "IP": v.IP == nil, "Peers": v.Peers == nil, "Alt": v.Alt == nil, "Waits": v.WaitsNS == nil, "Timeouts": v.TimeoutNS == nil,
-		"DocEmb": v.EmbN == nil && v.EmbS == nil, "Whens": v.Whens == nil, "PWaits": v.PWaitsNS == nil,
+		"DocEmb": v.EmbN == nil && v.EmbS == nil, "Whens": v.Whens == nil, "PWaits": v.PWaitsNS == nil, "Deep": v.DeepLabel == nil && v.DeepWaitNS == nil,
 	}
 	names := make([]string, 0, len(want))
 	for n := range want {
